@@ -35,6 +35,18 @@ its break-down threshold on the off-diagonal `beta`):
   (jitter + thr + 4u/thr + 12 k B + 128 k n u) nrm; equality with A at (jitter + 14 k B + 128 k n u) nrm when the Krylov
   space is the whole space; inverse root (positive definite A, cond <= 1e2 / 1e4): |R^T A R - I| <=
   2 cond (jitter + k (4 B + 64 n u) + 64 k^1.5 u).
+
+Violation signatures: `C09|<sub-check>|<operation>|<symptom>`; the sub-checks on a returned (Q, T) -- shape, iterations,
+finite, symmetric, tridiagonal, unit_columns, orthonormal, projection, residual, invariant -- and exceptions escaping
+`lanczos_tridiag` itself carry the operation `lanczos_tridiag` whichever entry point drove them (one bucket per root
+cause); consumer-level sub-checks -- call, budget, shape, finite, postprocess, compression, reconstruction, ritz,
+probe_choice -- carry `root` / `root_inv` / `diag`.
+
+Generator-side exclusion (DESIGN 1.6.4): for every *open* C09 entry of known_findings.json with a `trigger` in TRIGGERS the
+strategy avoids the trigger by construction (max_iter >= 2; no kappa = 1 spectra and no start vector whose first residual
+is at break-down level; multi-member cases that are neither healthy throughout nor a joint exact break-down are reduced to
+their first member; consumers are not given batch shapes with a leading 1 that would be dropped; diagonalization runs with
+tridiagonal_jitter(0)).  With no open entry everything is generated.
 """
 import math
 from unittest import mock
@@ -45,7 +57,7 @@ from hypothesis import strategies as st
 
 from lov import exc as X
 from lov import spd, state
-from lov.core import HarnessError, Violation, canon, sha
+from lov.core import HarnessError, Violation, sha
 
 ID = "C09"
 RULE = (
@@ -63,6 +75,8 @@ ASSUMPTIONS = [
     "the routine's `tol` argument is left at its default 1e-5 (the consumers cannot change it)",
     "near-break-down members (4 n u (nrm/beta_min)^2 > 1/2) are only checked for finiteness, structure and unit columns",
     "inverse roots are value-checked only for positive definite matrices with cond <= 1e2 (f32) / 1e4 (f64)",
+    "the reference Lanczos (own implementation, float64 and operator dtype) only classifies cases (healthy / break-down); it is never a value oracle",
+    "consumers: tridiagonal_jitter in {default 1e-6, 1e-3, 0}; max_root_decomposition_size = max_iter",
     "1-D initial_vectors (accepted by root_inv_decomposition's validation, rejected inside lanczos_tridiag) are not generated",
 ]
 WALL_GUARD = {"quick": 600, "thorough": 3000}
@@ -77,14 +91,15 @@ F64 = torch.float64
 TARGETS = ["tridiag"] * 11 + ["root"] * 4 + ["root_inv"] * 3 + ["diag"] * 2
 BATCHES = [(), (), (), (), (2,), (2,), (3,), (1,), (2, 1), (1, 2), (1, 1)]
 
-_STATS = {}  # measured c.u.n statistics of regular members (evidence only)
 _RATIO = {}  # largest observed error / bound per sub-check and dtype (evidence only)
+
+
+_PENDING = []  # ratios of the case being checked; merged into _RATIO only when the case passes
 
 
 def _rec(name, dtn, value, bound):
     if bound > 0:
-        key = "%s/%s" % (name, dtn)
-        _RATIO[key] = max(_RATIO.get(key, 0.0), value / bound)
+        _PENDING.append(("%s/%s" % (name, dtn), value / bound))
 
 
 # ------------------------------------------------------------------------------------------------
@@ -274,6 +289,8 @@ def _t_unit_batch(case):
     b = _batch_of(case)
     # one start column: RootDecomposition / Diagonalization take a leading batch dim of size 1 for the probe dim;
     # several columns: _postprocess_lanczos_root_inv_decomp squeezes dim 0 after selecting the best probe
+    if case["target"] == "diag" and not b and min(int(case["max_iter"]), case["spec"]["n"]) == 1:
+        return True  # same unconditional squeeze(0) removes the k = 1 dimension of the eigenvalues (visible once max_iter = 1 works)
     return case["target"] != "tridiag" and len(b) >= 1 and b[0] == 1 and (len(b) >= 2 or _ncols(case) > 1)
 
 
@@ -313,7 +330,6 @@ def _first_member(case):
     """Single-member restriction of a case (first batch member, first start column)."""
     spec = dict(case["spec"])
     batch = tuple(spec.get("batch", ()))
-    n = spec["n"]
 
     def first(x, depth):
         for _ in range(depth):
@@ -375,6 +391,8 @@ def cases(draw, tier):
         )
     )
     mi = min(mi, n + 2)
+    if mi == 1 and target == "diag" and not batch and "leading_unit_batch_consumer" in open_:
+        mi = 2
     case = {"spec": spec, "dt": dtn, "max_iter": mi, "target": target}
     # start vectors
     if target in ("root", "diag"):
@@ -445,6 +463,13 @@ def strategy(tier):
 # ------------------------------------------------------------------------------------------------
 def _fail(check, target, symptom, detail):
     raise Violation("C09|%s|%s|%s" % (check, target, symptom), detail)
+
+
+def _call_fail(e, target, detail):
+    """An exception escaping lanczos_tridiag itself is one bucket whichever consumer drove it."""
+    fr = X.innermost_lo_frame(e)
+    op = "lanczos_tridiag" if fr and fr[1] == "lanczos_tridiag" else target
+    _fail("call", op, "exc:" + X.describe(e), detail)
 
 
 def _flatten(Q, T, Aref, m, batch, n):
@@ -567,10 +592,9 @@ def check_tridiag(Q, T, Aref, case, target, an, labels):
             _rec("invariant_full", dtn, fe, tf)
             if fe > tf:
                 _fail("invariant", target, "full", "k = n but max |Q T Q^T - A| = %.3g > %.3g (member %d)" % (fe, tf, i))
-        st_ = _STATS.setdefault(dtn, {"orth_over_nu": 0.0, "proj_over_nu_nrm": 0.0})
-        st_["orth_over_nu"] = max(st_["orth_over_nu"], off / (n * u))
+        _PENDING.append(("stat:orth_over_nu/" + dtn, off / (n * u)))
         if nrm > 0:
-            st_["proj_over_nu_nrm"] = max(st_["proj_over_nu_nrm"], pe / (n * u * nrm))
+            _PENDING.append(("stat:proj_over_nu_nrm/" + dtn, pe / (n * u * nrm)))
     if any(x["post"] for x in infos):
         labels.append("regime:post_breakdown_columns")
     if any(x["vac"] for x in infos):
@@ -650,13 +674,13 @@ def run_consumer(case, A_lib, Aref, V_lib, an, labels):
     except (Violation, HarnessError):
         raise
     except Exception as e:
-        _fail("call", target, "exc:" + X.describe(e), "%s(method='lanczos') raised %r (n=%d batch=%s max_iter=%d dtype=%s)" % (target, e, n, batch, case["max_iter"], dtn))
+        _call_fail(e, target, "%s(method='lanczos') raised %r (n=%d batch=%s max_iter=%d dtype=%s)" % (target, e, n, batch, case["max_iter"], dtn))
     if len(rec) != 1:
         _fail("call", target, "calls", "the consumer called lanczos_tridiag %d times" % len(rec))
     a, kw, Q, T = rec[0]
     if int(a[1]) != int(case["max_iter"]):
         _fail("budget", target, "value", "lanczos_tridiag was given max_iter=%r under max_root_decomposition_size(%d)" % (a[1], case["max_iter"]))
-    infos, (Qf, Tf, Af) = check_tridiag(Q, T, Aref, case, target, an, labels)
+    infos, (Qf, Tf, Af) = check_tridiag(Q, T, Aref, case, "lanczos_tridiag", an, labels)
     m = an["m"]
     k = Q.shape[-1]
     # ---- shapes ---------------------------------------------------------------------------------
@@ -806,6 +830,7 @@ def check(case):
     if V_lib is not None and not bool((V_lib.norm(dim=-2) > 0).all()):
         raise HarnessError("zero start vector generated")
     labels = []
+    del _PENDING[:]
     m = an["m"]
     if target == "tridiag":
         try:
@@ -820,7 +845,7 @@ def check(case):
                 num_init_vecs=m,
             )
         except Exception as e:
-            _fail("call", target, "exc:" + X.describe(e), "lanczos_tridiag raised %r (n=%d batch=%s max_iter=%d cols=%d dtype=%s)" % (e, n, batch, case["max_iter"], m, dtn))
+            _call_fail(e, target, "lanczos_tridiag raised %r (n=%d batch=%s max_iter=%d cols=%d dtype=%s)" % (e, n, batch, case["max_iter"], m, dtn))
         if case.get("init") is None:
             # the emulated library-random start vector must be the one the routine used (classification depends on it)
             v0 = _library_random_start(case, n, m, DT[dtn])
@@ -828,9 +853,11 @@ def check(case):
             got = Q.to(F64).reshape(-1, *batch, n, Q.shape[-1])[..., 0] if m > 1 else Q.to(F64)[..., 0].unsqueeze(0)
             if bool(torch.isfinite(got).all()) and float((got.reshape(m, -1, n) - q0.T.unsqueeze(1)).abs().max()) > 1e-4:
                 raise HarnessError("library-random start vector differs from its emulation")
-        infos, _ = check_tridiag(Q, T, Aref, case, target, an, labels)
+        infos, _ = check_tridiag(Q, T, Aref, case, "lanczos_tridiag", an, labels)
     else:
         infos = run_consumer(case, A_lib, Aref, V_lib, an, labels)
+    for key, ratio in _PENDING:
+        _RATIO[key] = max(_RATIO.get(key, 0.0), ratio)
     k = infos[0]["k"]
     num_iter = an["num_iter"]
     spec = case["spec"]
@@ -895,6 +922,6 @@ def coverage_extra():
             "tol_reorth": TOL_REORTH, "breakdown": BRK, "unit_columns": "64 n u", "orthonormal": "max(tol, 4 n u nrm/beta_min), claimed while 4 n u (nrm/beta_min)^2 <= 0.5",
             "projection": "(4B + 64 n u) nrm", "residual": "(4 sqrt(k) B + 64 n u) nrm", "postprocess": "64 k^1.5 u nrm",
         },
-        "max_error_over_bound": {k: float("%.4g" % v) for k, v in sorted(_RATIO.items())},
-        "measured_regular_members": {k: {a: float("%.4g" % b) for a, b in v.items()} for k, v in _STATS.items()},
+        "max_error_over_bound": {k: float("%.4g" % v) for k, v in sorted(_RATIO.items()) if not k.startswith("stat:")},
+        "measured_regular_members_in_units_of_n_u": {k[5:]: float("%.4g" % v) for k, v in sorted(_RATIO.items()) if k.startswith("stat:")},
     }
